@@ -5,6 +5,7 @@ import (
 	"fmt"
 	"sort"
 	"strings"
+	"unicode/utf8"
 
 	"evylang.dev/evy/learn/pkg/learn"
 
@@ -57,7 +58,7 @@ func init() {
 	core.Register(&core.Check{
 		ID:    "C20",
 		Level: "exploration",
-		Rule: "(seal) texts of 20 classes (empty, ASCII, multi-byte, newlines, YAML-special, NUL, invalid UTF-8, up to 4 KiB) x 4 fresh key pairs (1024 and 2048 bit) + the embedded public key: round trip, then for each sealed value every single byte position of the raw envelope x {+1, ^0x80, 0x00, 0xFF} (sampled to 400 positions for long values), every truncation length (sampled), single-character substitutions and deletions in the base64 text, appended bytes, swapped halves, a sealed value of another text under the same key, the right text under another key; Seal/Unseal on front matter level. (verify) exhaustive grid: n = 2..5 choices x every assignment of outputs {matches, differs, differs by a trailing space} x every subset of marked letters incl. a letter beyond n and malformed markings x {single-choice, multiple-choice}, choices as inline code, text blocks and evy code blocks that are really executed. distinct = distinct (text class, key, tampering) / question cells",
+		Rule: "(seal) texts of 20 classes (empty, ASCII, multi-byte, newlines, YAML-special, NUL, invalid UTF-8, up to 4 KiB) x 4 fresh key pairs (1024 and 2048 bit) + the embedded public key: round trip, then for each sealed value every single byte position of the raw envelope x {+1, ^0x80, 0x00, 0xFF} (sampled to 400 positions for long values), every truncation length (sampled), single-character substitutions and deletions in the base64 text, appended bytes, swapped halves, a sealed value of another text under the same key, the right text under another key; QuestionModel.Seal/Unseal of a text question whose answer is each text with leading/trailing blanks, newlines, tabs, NBSP and ideographic space. (verify) exhaustive grid: n = 2..5 choices x every assignment of outputs {matches, differs, differs by a trailing space} x every subset of marked letters incl. a letter beyond n and malformed markings x {single-choice, multiple-choice}, choices as inline code, text blocks and evy code blocks that are really executed. distinct = distinct (text class, key, tampering) / question cells",
 		Assumptions: []string{"closed-form oracle: a tampered or foreign-key value may be rejected or still yield the original, never another text; Verify accepts iff the marking is well formed and {marked} == {choices whose output equals the question's output}"},
 		NumCases: func(tier string) int {
 			seal := len(c20Texts) * 5
@@ -219,8 +220,86 @@ func c20Seal(c *core.Ctx, st *c20State, text string, ki int) {
 		}
 	}
 	try("foreign-key", sealed, other.Private)
-	// front matter level Seal/Unseal round trips go through the same functions (NewQuestionModel
-	// needs a full question; covered in the verify part with a sealed answer)
+	// question level: the answer of a question file sealed and unsealed through the model
+	if ki < 2 {
+		for _, t := range []string{text, " " + text, text + " ", text + "\n", "\t" + text + "\n\n", "\u00a0" + text + "\u3000", "\n" + text} {
+			c20ModelSeal(c, kp, t)
+		}
+	}
+}
+
+// yamlQuote returns t as a YAML double-quoted scalar, or "" if t needs escapes this function does not write.
+func yamlQuote(t string) string {
+	if !utf8.ValidString(t) {
+		return ""
+	}
+	var b strings.Builder
+	b.WriteByte('"')
+	for _, r := range t {
+		switch {
+		case r == '"':
+			b.WriteString("\\\"")
+		case r == '\\':
+			b.WriteString("\\\\")
+		case r == '\n':
+			b.WriteString("\\n")
+		case r == '\t':
+			b.WriteString("\\t")
+		case r < 0x20 || r == 0x7f || r == 0x85 || r == 0x2028 || r == 0x2029 || r == 0xfeff:
+			return ""
+		default:
+			b.WriteRune(r)
+		}
+	}
+	b.WriteByte('"')
+	return b.String()
+}
+
+const c20TextQuestionMD = "## Understanding sequence: `print`\n\nComplete the program that generates this output:\n\n```\n1\n```\n\nProgram:\n\n```evy\n\nprint 2\n```\n"
+
+// c20ModelSeal: QuestionModel.Seal then Unseal (and Decrypt of the stored sealed value) must give back
+// exactly the answer text the model held before sealing.
+func c20ModelSeal(c *core.Ctx, kp learn.KeyPair, text string) {
+	q := yamlQuote(text)
+	if q == "" || text == "" {
+		return
+	}
+	fm := "type: question\ndifficulty: easy\nanswer-type: text\nanswer: " + q + "\n"
+	desc := fmt.Sprintf("question-level seal of %q", firstN(text, 60))
+	defer func() {
+		if p := recover(); p != nil {
+			c.Violation("seal:model-crash", fmt.Sprintf("%s: %v", desc, p), fm+"---\n"+c20TextQuestionMD, nil)
+		}
+	}()
+	m, err := learn.NewQuestionModel("course/unit/exercise/q.md", learn.WithRawMD(fm, c20TextQuestionMD), learn.WithPrivateKey(kp.Private))
+	if err != nil {
+		c.Cover("model-not-built", firstN(err.Error(), 40))
+		return
+	}
+	before := m.Frontmatter.Answer
+	if before != text {
+		c.Cover("model-yaml-changed-text", "yes") // the YAML layer, not sealing, changed the text: judge what the model holds
+	}
+	if before == "" {
+		return
+	}
+	c.Event("model_round_trips", 1)
+	c.Distinct("model|" + text)
+	if err := m.Seal(kp.Public); err != nil {
+		c.Violation("seal:model-seal-error", fmt.Sprintf("%s: Seal failed: %v", desc, err), fm, nil)
+		return
+	}
+	if m.Frontmatter.Answer != "" || m.Frontmatter.SealedAnswer == "" || !m.IsSealed() {
+		c.Violation("seal:model-not-sealed", desc+": after Seal the plain answer is still present or no sealed answer is stored", fm, nil)
+		return
+	}
+	if got, err := learn.Decrypt(kp.Private, m.Frontmatter.SealedAnswer); err != nil || got != before {
+		c.Violation("seal:model-round-trip", fmt.Sprintf("%s: the stored sealed answer decrypts to %q (%v), the model held %q", desc, firstN(got, 80), err, firstN(before, 80)), fm, nil)
+		return
+	}
+	if err := m.Unseal(); err != nil || m.Frontmatter.Answer != before || m.Frontmatter.SealedAnswer != "" {
+		c.Violation("seal:model-round-trip", fmt.Sprintf("%s: after Seal and Unseal the answer is %q (%v), before it was %q", desc, firstN(m.Frontmatter.Answer, 80), err, firstN(before, 80)), fm, nil)
+	}
 }
 
 // c20Question builds the markdown of a choice question.
